@@ -26,6 +26,14 @@ def setExtend {α} [DecidableEq α] (s : List α) (xs : List α) : List α :=
 def setRemove {α} [DecidableEq α] (s : List α) (x : α) : List α :=
   s.filter (fun y => y ≠ x)
 
+/-- `TombstoneSet::union_with(&mut self, other) -> usize` of every backend (`HashSet`: insert the items of
+`other` one by one; roaring: `&self.bitmap | &other.bitmap`; FST: rebuilt from the union stream):
+the set becomes the union, the answer is the length before. -/
+def tombUnionWith {α} [DecidableEq α] (s o : List α) : List α × Nat := (setExtend s o, s.length)
+
+/-- `FromIterator` of a set-like backing -/
+def setCollect {α} [DecidableEq α] (xs : List α) : List α := setExtend [] xs
+
 /-! ### `SetUnionWithTombstones` -/
 
 structure TSet (α : Type) where
